@@ -13,6 +13,8 @@ mod wm;
 mod join;
 mod misc;
 mod ckstore;
+mod ckequiv;
+mod codec;
 
 fn main() {
     let args: Vec<String> = std::env::args().collect();
@@ -41,6 +43,8 @@ fn main() {
         "join-replay" => join::replay(rest),
         "value-eq" => misc::value_eq(rest),
         "ckstore-replay" => ckstore::replay(rest),
+        "ckequiv-replay" => ckequiv::replay(rest),
+        "codec-replay" => codec::replay(rest),
         "for-expand" => misc::for_expand(rest),
         "event-file" => misc::event_file(rest),
         other => {
